@@ -27,7 +27,8 @@ from .c04 import CORE_TAGS, NUMERIC, SUB_TAGS, TEMPORAL, canon, geq
 
 WIDENS = {("bool", "int"), ("bool", "float"), ("bool", "complex"), ("int", "float"), ("int", "complex"),
           ("float", "complex"), ("date", "datetime")}
-PROMOTABLE = {("int", "float"), ("int", "complex"), ("float", "complex"), ("date", "datetime")}
+# the statement's ladders: bool < int < float < complex and date < datetime - every upward pair is a supported promotion
+PROMOTABLE = set(WIDENS)
 
 
 def fits(tag: str, d: DT) -> bool:
@@ -1336,6 +1337,7 @@ def _promote(ctx) -> None:
                 out[t] = val[l] in [x[1] for x in r[1]]
         return out
     conv_of = {
+        "int": lambda x: ("call", ("name", "int"), (x,), ()),
         "float": lambda x: ("call", ("name", "float"), (x,), ()),
         "complex": lambda x: ("call", ("name", "complex"), (x,), ()),
         "datetime": lambda x: ("call", ("attr", ("name", "datetime"), "combine"),
@@ -1462,6 +1464,9 @@ def _validate_scalar(ctx) -> None:
 
 _V = "vector"
 MUTANTS = [
+    dict(id="bool-rung-missing", module=_V, old="		if target_kind is int:\n			return kind is bool\n		if target_kind is float:\n			return kind in (bool, int)",
+         new="		if target_kind is float:\n			return kind is int", rules=["b.promote", "b.validation-loop"],
+         desc="the defect repaired by fix 64d31b9: a bool vector rejects an int value instead of promoting"),
     dict(id="cast-date-passes-datetime", module=_V,
          old="				if isinstance(x, datetime):\n					return x.date()  # a datetime is not of kind date: keep the date part\n", new="",
          rules=["a.site-typing"], desc="the defect repaired by fix b11e7f6: a datetime vector cast to date keeps datetimes under <date>"),
